@@ -28,7 +28,8 @@ import (
 // notice that the pool's converter did not see the other texts.
 
 type convPool struct {
-	m map[string]*markdown.Converter
+	m   map[string]*markdown.Converter
+	eng *document.TemplateEngine // engine.go
 }
 
 func newConvPool() *convPool { return &convPool{m: map[string]*markdown.Converter{}} }
